@@ -30,7 +30,7 @@ TRUSTED = [
 ]
 ASSUMPTIONS = ['HTTP/1.2-style requests (same major, higher minor) are answered 505 by the code (pinned by tests/api/test_statemachine.py::test_max_protocol); the oracle accepts either 505 or a 1.1 answer there']
 RULE = ('exhaustive: status codes 0-999 x 8 phrases (words, hyphen, apostrophe, empty, 8-bit), versions [0,3]x[0,11] (parse/compose, all ordered pairs for comparison, negotiation), methods of length <= 2 over the accepted alphabet (+ length 3 sampled), '
-	'single-octet corruptions (256 values x every position) of two valid start lines; random longer methods; non-trivial = accepted and round-tripped; distinct by canonical output')
+	'single-octet corruptions (256 values x every position) of two valid start lines; random longer methods; sequences of 2-5 texts parsed into ONE Protocol / Status / Method / Request / Response object with composing in between; non-trivial = accepted and round-tripped; distinct by canonical output')
 
 PHRASES = [b'OK', b'Not Found', b"I'm a teapot", b'Non-Authoritative Information', b'x', b'A_b 9', b'', b'caf\xe9']
 ALPHA = b'ABCXYZabcxyz0189-_.$'
@@ -81,6 +81,24 @@ def cases(rng, tier):
 		yield ('respline', rng.choice([b'HTTP/1.1', b'HTTP/1.0', b'HTTP/3.9']) + rng.choice([b' ', b'  ', b'']) + bytes(rng.choice(b'0123456789') for _ in range(rng.choice((2, 3, 3, 3, 4)))) + rng.choice([b' OK', b'  Two  words', b'', b' \xe9']))
 
 
+	# the same on ONE object that is parsed, composed and parsed again (a value remembered from the earlier text must not show)
+	for _ in range(n):
+		kind = rng.choice(('proto', 'proto', 'status', 'method', 'reqline', 'respline'))
+		steps = []
+		for _ in range(rng.randrange(2, 6)):
+			if kind == 'proto':
+				steps.append(rng.choice([b'HTTP/%d.%d' % (rng.randrange(0, 4), rng.randrange(0, 12)), b'HTTP/1.1', b'HTTP/1.0', b'HTTP/1', b'http/1.1', b'HTTP/01.1']))
+			elif kind == 'status':
+				steps.append(b'%d %s' % (rng.choice((200, 204, 404, 99, 600, 500, 101)), rng.choice(PHRASES)))
+			elif kind == 'method':
+				steps.append(rng.choice([b'GET', b'POST', b'get', b'M-SEARCH', b'G T', b'', b'HEAD', b'PUT']))
+			elif kind == 'reqline':
+				steps.append(rng.choice([b'GET', b'POST', b'get', b'']) + b' ' + rng.choice([b'/', b'/a?b', b'*']) + b' ' + rng.choice([b'HTTP/1.1', b'HTTP/1.0', b'HTTP/2.0', b'HTTP/1']))
+			else:
+				steps.append(rng.choice([b'HTTP/1.1', b'HTTP/1.0', b'HTTP/3.9']) + b' ' + rng.choice([b'200 OK', b'404 Not Found', b'204', b'99 x', b'500 Two  words']))
+		yield ('seq', kind, tuple(steps))
+
+
 def search(rng, res):
 	return cases(rng, 'thorough')
 
@@ -101,6 +119,14 @@ def model_lines(case):
 		return ['sl.request %s' % hx(case[1])]
 	if k == 'respline':
 		return ['sl.response %s' % hx(case[1])]
+	if k == 'seq':
+		# the model has no object state: every step is what a fresh object gives
+		return [model_lines((case[1], t) if case[1] != 'status' else ('status',) + split_status(t))[0] for t in case[2]]
+
+
+def split_status(t):
+	code, _, ph = t.partition(b' ')
+	return (int(code), ph)
 
 
 def guarded(f):
@@ -163,10 +189,71 @@ def impl_lines(case):
 			r.parse(case[1])
 			return '%d %d %d %s' % (r.protocol.major, r.protocol.minor, int(r.status), hx(r.status.reason.encode('latin-1')))
 		return [guarded(f)]
+	if k == 'seq':
+		return seq_impl(case[1], case[2])
+
+
+def seq_impl(kind, steps):
+	"""one object, every text parsed into it in turn, composed after each step; the lines are those of the single-step kinds"""
+	from httoop.messages.method import Method
+	from httoop.messages.protocol import Protocol
+	from httoop.status import Status
+	from httoop.messages import Request, Response
+	from httoop.exceptions import InvalidURI
+	obj = {'proto': Protocol, 'status': Status, 'method': Method, 'reqline': Request, 'respline': Response}[kind]()
+	out = []
+	for t in steps:
+		def f():
+			if kind == 'proto':
+				obj.parse(t)
+				return '%d %d %s' % (obj.major, obj.minor, hx(bytes(obj)))
+			if kind == 'status':
+				obj.parse(t)
+				return '%d %s %s' % (int(obj), hx(obj.reason.encode('latin-1')), hx(bytes(obj)))
+			if kind == 'method':
+				obj.parse(t)
+				return hx(bytes(obj))
+			if kind == 'reqline':
+				try:
+					obj.parse(t)
+				except InvalidURI:
+					pass
+				bytes(obj)      # composed between two parses
+				return '%s %d %d' % (hx(bytes(obj.method)), obj.protocol.major, obj.protocol.minor)
+			obj.parse(t)
+			bytes(obj)
+			return '%d %d %d %s' % (obj.protocol.major, obj.protocol.minor, int(obj.status), hx(obj.status.reason.encode('latin-1')))
+		out.append(guarded(f))
+	return out
 
 
 def oracle(case):
 	"""the property on the real code"""
+	if case[0] == 'seq':
+		# after every successful parse the object composes to what a fresh object composes for that text
+		kind, steps = case[1], case[2]
+		got = seq_impl(kind, steps)
+		for t, g in zip(steps, got):
+			fresh = impl_lines((kind, t) if kind != 'status' else ('status',) + split_status(t))[0]
+			if g != fresh:
+				return {'what': 'an object parsed again differs from a fresh one: %s after the earlier steps, %s fresh' % (g, fresh), 'kind': kind, 'steps': [x.decode('latin-1') for x in steps], 'finding': None}
+		# and the composed start line of a message object follows the last successful parse
+		if kind in ('reqline', 'respline'):
+			from httoop.messages import Request, Response
+			from httoop.exceptions import InvalidURI
+			obj = (Request if kind == 'reqline' else Response)()
+			for t in steps:
+				try:
+					obj.parse(t)
+				except InvalidURI:
+					continue
+				except Exception:
+					continue
+				fresh = (Request if kind == 'reqline' else Response)()
+				fresh.parse(t)
+				if bytes(obj) != bytes(fresh):
+					return {'what': 'start line composed after re-parsing is %r, a fresh object gives %r' % (bytes(obj), bytes(fresh)), 'kind': kind, 'steps': [x.decode('latin-1') for x in steps], 'finding': None}
+		return None
 	from httoop.messages.method import Method
 	from httoop.messages.protocol import Protocol
 	from httoop.status import Status
@@ -285,6 +372,8 @@ def tally(case, res):
 
 
 def describe(case):
+	if case[0] == 'seq':
+		return ['seq', case[1], [x.hex() for x in case[2]]]
 	return [case[0]] + [x.hex() if isinstance(x, bytes) else x for x in case[1:]]
 
 
@@ -294,6 +383,8 @@ def undescribe(d):
 		return (k, bytes.fromhex(d[1]))
 	if k == 'status':
 		return (k, d[1], bytes.fromhex(d[2]))
+	if k == 'seq':
+		return (k, d[1], tuple(bytes.fromhex(x) for x in d[2]))
 	return tuple(d)
 
 
